@@ -102,8 +102,9 @@ def writer_reader(ctx, g, rd):
         a = [norm(rd.origin(x), g) for x in t["args"]]
         zero = ("rel", "Eq", ("call", "dsets::PartialDSet::op_unchecked", (a[0], a[1], a[2])), ("int", 0))
         # the first block in the loop body where `op_unchecked(i, d) == 0` is known
-        starts = [b_ for b_ in sorted(loop_body(rd, lp[0], lp[1])) if any(implies(atom_norm(h, g), zero) for h in rd.facts_at(b_)) and
-                  not any(implies(atom_norm(h, g), zero) for p_ in rd.pred().get(b_, []) for h in rd.facts_at(p_))]
+        lbody = loop_body(rd, lp[0], lp[1])
+        starts = [s_ for (a_, s_), ps in rd.edge_preds().items() if a_ in lbody and s_ in lbody and
+                  any(implies(atom_norm(h, g), zero) for term, val in ps for h in atoms_of(term, val))]
         okfill = bool(starts) and all(must_pass_through(rd, s_, bi, lp[0]) for s_ in starts)
     ctx.ob("T3-fill-complete", rd.name, "unassigned (i, d) -> set(i, d, ..) or Err", "ok" if okfill else "violation",
            "every still-unassigned entry is assigned before the loop continues (or parsing ends with an error): the D-set is complete when it is converted" if okfill else
